@@ -54,7 +54,7 @@ func (rt *RateTotal) Validate() error {
 func (ct *CategoryTotal) Validate() error {
 	return validation.ValidateStruct(ct,
 		validation.Field(&ct.Code, validation.Required),
-		validation.Field(&ct.Rates),
+		validation.Field(&ct.Rates, validation.Required),
 	)
 }
 
